@@ -42,8 +42,9 @@ def main():
     ok, out, dt = coqrun.make(["-k"] + targets, timeout=7000)
     print(out[-4000:])
     missing = [t for t in targets if not os.path.exists(os.path.join(coqrun.COQ, t))]
-    print(f"build of {len(targets)} targets {'ok' if not missing else 'FAILED: ' + str(missing)} in {dt:.0f}s")
-    return 0 if not missing and not hits else 1
+    good = ok and not missing
+    print(f"build of {len(targets)} targets {'ok' if good else 'FAILED: make rc!=0, missing=' + str(missing)} in {dt:.0f}s")
+    return 0 if good and not hits else 1
 
 
 if __name__ == "__main__":
